@@ -17,6 +17,8 @@ I_ = z3.IntSort()
 B_ = z3.BoolSort()
 qe, qk = z3.Ints("qe qk")
 
+extract.GEN_TUS["record_replay_buffer"] = "#include <hgraph/lib/testing/record_replay_buffer.h>\n"
+
 DELTA_OF = z3.Function("captured_delta_of_child", I_, I_)   # general contract: capture_delta(child i) = this id
 
 
@@ -321,9 +323,8 @@ class CaptureDeltaTss(DeltaKernel):
 
     def post(self, I, ret):
         ctx = I.ctx
-        if not isinstance(ret, BundleValue) or "added" not in str(ret.named.keys()):
-            names = {str(k) for k in ret.named} if isinstance(ret, BundleValue) else set()
-            raise Gap("capture_delta_tss returned %r with fields %s" % (ret, names))
+        if not isinstance(ret, BundleValue):
+            raise Gap("capture_delta_tss returned %r" % (ret,))
         a = self.field(ret, "added")
         r = self.field(ret, "removed")
         in_a = lambda e: z3.Exists([qk], z3.And(qk >= 0, qk < self.na, self.ea[qk] == e))
@@ -720,7 +721,10 @@ class OutB(Obj):
 
 class CycleOffset(Kernel):
     name = "record_replay_buffer.h:cycle_offset"
-    tu = "src/hgraph/lib/std/operators/record_replay_memory_impl.cpp"
+    # clang 14 crashes on the translation units that use this header (static-node templates), so the header is
+    # dumped through a generated TU consisting of one #include line (extraction mode E2)
+    tu = "gen:record_replay_buffer"
+    extraction_mode = "E2 generated TU: #include <hgraph/lib/testing/record_replay_buffer.h>"
     filter = "cycle_offset"
     fn_name = "cycle_offset"
     property_ids = ("C20",)
